@@ -1,6 +1,6 @@
 (** Properties_C02.v — C02: refused or failed requests never change or destroy
     stored data.  Statements only. *)
-From GW Require Import Base GoPath Fs DavServer Rfc4918 FsProofs DavRefine DavCorollaries UploadSteps UploadStepsProofs CopySteps CopyStepsProofs CopyTempProofs MoveSteps MoveStepsProofs.
+From GW Require Import Base GoPath Fs DavServer Rfc4918 FsProofs DavRefine DavCorollaries UploadSteps UploadStepsProofs CopySteps CopyStepsProofs CopyTempProofs MoveSteps MoveStepsProofs MoveSuccessProofs.
 Local Open Scope list_scope.
 
 (** Whenever the answer is 4xx or 5xx the whole modelled file system — names,
@@ -143,6 +143,23 @@ Theorem C02_move_is_steps_new : forall root sb r dst ow ss n ds sb' tmpp,
   fst (do_move root sb r dst ow) = Some sb'.
 Proof. exact move_is_steps_new. Qed.
 Print Assumptions C02_move_is_steps_new.
+
+(** Without a fault, onto an existing destination: the sequence (set the old destination
+    aside, rename the source, remove the old destination) succeeds, and the resulting tree
+    has, at every path, the name, kind and content of the tree the single step of [serve]
+    computes — for every tree, source, destination and new temporary path unrelated to both. *)
+Theorem C02_move_success_is_do_move : forall s sp dp tmpp n old T,
+  geto s sp = Some n -> geto s dp = Some old ->
+  is_prefix sp dp = false -> is_prefix dp sp = false ->
+  dp <> [] -> tmpp <> [] -> geto s tmpp = None ->
+  is_prefix dp tmpp = false -> is_prefix tmpp dp = false ->
+  is_prefix sp tmpp = false ->
+  is_dir (geto s (parent tmpp)) = true -> is_dir (geto s (parent dp)) = true ->
+  seto (remo (remo s dp) sp) dp n = Some T ->
+  exists s', move_steps s sp dp tmpp false = (Some s', true) /\
+    forall q, abs (Some s') q = abs (Some T) q.
+Proof. exact move_success_is_do_move. Qed.
+Print Assumptions C02_move_success_is_do_move.
 
 (** Before the repair Move was os.RemoveAll(dst); os.Rename(src, dst)
     ([MoveSteps.move_steps_old]): the single step of [serve] when nothing failed, but the
